@@ -353,6 +353,23 @@ func init() {
 						}
 					}
 				}})
+			// long tokens and long argument lists (255 bytes .. 1 MiB): parsing returns, and what is cut short is rejected
+			longLens := []int{255, 256, 257, 4096, 65535, 65536, 65537, 1 << 20}
+			secs = append(secs, core.Section{Name: "long-tokens", Exhaustive: true, N: len(longLens),
+				Run: func(c *core.Ctx, i int) {
+					for _, src := range longTokenInputs(longLens[i]) {
+						parseContract(c, src, "")
+						if strings.HasSuffix(src, " }}") {
+							parseContract(c, strings.TrimSuffix(src, " }}"), "")
+						}
+					}
+					n := longLens[i]
+					parseContract(c, "{{ \""+strings.Repeat("s", n), spanNames["s"])
+					parseContract(c, "{{-- "+strings.Repeat("c ", n/2), spanNames["c"])
+					parseContract(c, "@if(x)"+strings.Repeat("text ", n/5), spanNames["b"])
+					parseContract(c, "{{ {a: "+strings.Repeat("[", n%2000), spanNames["o"])
+					parseContract(c, "@if("+strings.Repeat("(", n%2000), spanNames["a"])
+				}})
 			secs = append(secs, core.Section{Name: "call-syntax-table", Exhaustive: true, N: len(mustReturnTable),
 				Run: func(c *core.Ctx, i int) { parseContract(c, mustReturnTable[i], "") }})
 			// illegal characters injected into the code of generated templates
